@@ -265,8 +265,13 @@ fn rg_main(env: &mut VEnv, args: Vec<Field>) -> BuiltinFuture<'_> {
         let mut guard = yash_semantics::redir::RedirGuard::new(env);
         let mut steps = vec![];
         let mut cause = "-".to_string();
+        // `perform_redirs`' accumulation of the exit statuses of command substitutions in operands
+        let mut cs: Option<i32> = None;
         for r in redirs.iter() {
             let res = guard.perform_redir(r, None).await;
+            if let Ok(st) = &res {
+                cs = st.map(|s| s.0).or(cs);
+            }
             let (s, e) = snap_now(&guard);
             LOG.with(|l| l.borrow_mut().push(("gstep".into(), s.clone(), e)));
             steps.push(s);
@@ -282,7 +287,7 @@ fn rg_main(env: &mut VEnv, args: Vec<Field>) -> BuiltinFuture<'_> {
             guard.undo_redirs();
         }
         drop(guard);
-        LOG.with(|l| l.borrow_mut().push(("rg".into(), format!("G:{}|e{cause}", steps.join("/")), vec![])));
+        LOG.with(|l| l.borrow_mut().push(("rg".into(), format!("G:{}|e{cause}|x{}", steps.join("/"), cs.map(|c| c.to_string()).unwrap_or_else(|| "-".into())), vec![])));
         ExitStatus(if failed { 2 } else { 0 }).into()
     })
 }
@@ -470,8 +475,7 @@ fn parse_case(case: &str) -> Option<Case> {
         let redirs = parse_redirs(pair[1])?;
         let markers = redirs.iter().filter(|r| r.1 == "nest").count();
         if NEST_KINDS.contains(&pair[0]) {
-            // non-interactive shells only (see Main.lean)
-            if markers != 1 || interactive {
+            if markers != 1 {
                 return None;
             }
         } else if !KINDS.contains(&pair[0]) || markers != 0 {
@@ -496,6 +500,9 @@ fn operand_text(o: &str) -> String {
         "N" => "$'/tmp/a\\0b'".into(),
         "ca" => "$(echo /tmp/a)".into(),
         "cm" => "$(echo /tmp/m)".into(),
+        // the same with a non-zero exit status of the substitution (`perform_redir`'s `Option<ExitStatus>`)
+        "c3" => "$(echo /tmp/a; exit 3)".into(),
+        "c5m" => "$(echo /tmp/m; exit 5)".into(),
         // descriptor operands that do not fit / are negative
         "big" => "99999999999".into(),
         "neg" => "-1".into(),
@@ -548,8 +555,15 @@ fn nested_text(kind: &str, redirs: &[RedirSpec], salt: u64) -> String {
         "nestexecnf" => "exec nosuchcmd",
         _ => "fds",
     };
+    let body = format!("imark; {cmd} {}; imark", iw.join(" "));
     if kind == "nestfn" {
-        format!("h() {{ imark; {cmd} {}; imark; }}\n{ib}h {}\n{ob}mark\n", iw.join(" "), ow.join(" "))
+        format!("h() {{ {body}; }}\n{ib}h {}\n{ob}mark\n", ow.join(" "))
+    } else if kind == "nestfor" {
+        format!("for i in 1; do {body}; done {}\n{ib}{ob}mark\n", ow.join(" "))
+    } else if kind == "nestif" {
+        format!("if :; then {body}; fi {}\n{ib}{ob}mark\n", ow.join(" "))
+    } else if kind == "nestcase" {
+        format!("case x in x) {body};; esac {}\n{ib}{ob}mark\n", ow.join(" "))
     } else {
         // here-document bodies follow the line in the order of the operators on it: inner first
         format!("{{ imark; {cmd} {}; imark; }} {}\n{ib}{ob}mark\n", iw.join(" "), ow.join(" "))
@@ -892,11 +906,13 @@ const KINDS: [&str; 31] = [
 /// nested family: `{ imark; CMD inner…; imark; } outer…` with CMD = `fds` (`nest`; `nestfn`: the same as the
 /// body of a function, the outer list on the call), `sfds`, `exec`, `nosuchcmd`, `:`, `exec nosuchcmd`; the
 /// list is `outer…; 0 nest -; inner…`
-const NEST_KINDS: [&str; 7] = ["nest", "nestfn", "nestsp", "nestexec", "nestnf", "nestcolon", "nestexecnf"];
+/// (`nestfor` / `nestif` / `nestcase`: the outer command is a `for` / `if` / `case` instead of `{ }`)
+const NEST_KINDS: [&str; 10] =
+    ["nest", "nestfn", "nestsp", "nestexec", "nestnf", "nestcolon", "nestexecnf", "nestfor", "nestif", "nestcase"];
 /// kinds whose built-in asks to retain the redirections (`should_retain_redirs`)
 const EXEC_FAMILY: [&str; 6] = ["exec", "cmdexec", "execnf", "execne", "cmdexecnf", "guardkeep"];
 const FILE_OPS: [&str; 5] = ["in", "out", "clob", "app", "rw"];
-const FILE_OPERANDS: [&str; 11] = ["a", "b", "m", "n", "d", "e", "E", "t", "N", "ca", "cm"];
+const FILE_OPERANDS: [&str; 13] = ["a", "b", "m", "n", "d", "e", "E", "t", "N", "ca", "cm", "c3", "c5m"];
 
 fn gen_redir(r: &mut Rng) -> String {
     let fd = match r.below(10) {
@@ -985,7 +1001,8 @@ fn gen_case(r: &mut Rng) -> String {
         let rs: Vec<String> = (0..n).map(|_| gen_redir(r)).collect();
         cmds.push(format!("{kind} | {}", rs.join("; ")));
     }
-    let inter = if r.chance(1, 3) && !has_nested { " i" } else { "" };
+    let _ = has_nested;
+    let inter = if r.chance(1, 3) { " i" } else { "" };
     format!("{nc} {lim} {pre}{inter} | {}", cmds.join(" | "))
 }
 
@@ -1297,6 +1314,10 @@ fn nested_cases(thorough: bool) -> Vec<String> {
                     let sep = if o.is_empty() { "" } else { "; " };
                     let list = format!("{o}{sep}0 nest -; {inn}");
                     v.push(format!("0 - {pre} | {kind} | {list} | regular | 1 out m"));
+                    // interactive: an interrupted inner command skips the rest of the outer body
+                    if (i + j + k) % 3 == 0 {
+                        v.push(format!("0 - {pre} i | {kind} | {list} | regular | 1 out m"));
+                    }
                     let lo = if *pre == "-" || *pre == "0x" { 3 } else { 12 };
                     for lim in lo..=14 {
                         if (i + j + lim) % (if thorough { 2 } else { 7 }) == 0 {
@@ -1305,6 +1326,28 @@ fn nested_cases(thorough: bool) -> Vec<String> {
                     }
                 }
             }
+        }
+    }
+    v
+}
+
+/// the exit status of a command substitution in an operand: `perform_redir` hands it back, `perform_redirs`
+/// keeps the last one, a command without a command word (`empty`, `assign`) exits with it
+fn cs_status_cases() -> Vec<String> {
+    let lists = [
+        "1 out c3", "1 out c3; 2 out c5m", "1 out c5m; 2 app ca", "1 out c3; 0 in m", "0 in m; 1 out c3", "1 out a; 2 app c3",
+        "1 out c3; 2 out b", "0 in c3; 0 dupin -", "1 out c5m; 1 out c3; 1 out cm",
+    ];
+    let mut v = vec![];
+    for kind in ["empty", "assign", "guard", "guardkeep", "regular", "special", "exec", "func", "brace", "notfound"] {
+        for l in lists {
+            for nc in [0, 1] {
+                v.push(format!("{nc} - - | {kind} | {l} | regular | "));
+            }
+            for lim in [4, 5, 6, 12] {
+                v.push(format!("0 {lim} - | {kind} | {l} | regular | "));
+            }
+            v.push(format!("0 - 3b,11c i | {kind} | {l} | special | "));
         }
     }
     v
@@ -1331,6 +1374,7 @@ fn main() {
     all.extend(guard_cases(o.thorough()));
     all.extend(copy_order_cases(o.thorough()));
     all.extend(nested_cases(o.thorough()));
+    all.extend(cs_status_cases());
     for c in &all {
         if index % o.shard.1 == o.shard.0 {
             let (obs, oracle) = run_guarded(c);
